@@ -254,6 +254,11 @@ class Fresh:
             rd = self.defs.reaching(node, d) if node is not None else []
             if rd:
                 res = set()
+                if self.roots is not None and self.roots(d) and node is not None:
+                    # a field of a tracked object that is re-assigned on some paths only keeps its incoming value on the others
+                    defnodes = {df.node for df in rd if df.node is not None}
+                    if node in self.cfg.reachable(self.cfg.entry, removed=defnodes):
+                        res.add(("ALIAS", d))
                 for df in rd:
                     key = (id(df), d)
                     if key in _seen:
